@@ -24,6 +24,8 @@ def ty_rust(t):
 
 
 def ref_rust(r):
+    if r[0] == 'r' and not (0 <= r[1] <= 0xFFFFFFFF and 0 <= r[2] <= 0xFFFFFFFF):
+        raise ValueError('generator error: raw pair %r is not two u32' % (r,))
     if r[0] == 'r':
         return 'r%d:%d' % (r[1], r[2])
     return '%s%d' % r
